@@ -50,10 +50,24 @@ def rep_offset(segs, path, base=ZERO):
         pos = add(pos, seglen(s))
     return None
 
-def seg_at_term(segs, off):
+def seg_at_term(segs, off, width=None):
+    """the segment starting at offset `off`; with a width, the integer field of that many bytes starting there, however
+    the serialiser chunks it (one `word`, two `byte`s, part of an array literal): the little-endian combination"""
     lst, _ = with_offsets(segs)
-    for p, s in lst:
-        if p == off: return s
+    for k, (p, s) in enumerate(lst):
+        if p != off: continue
+        if width is None or s[0] != 'int' or s[2] == width: return s
+        if s[2] > width:
+            lo_, hi_ = rng(s[1])
+            return ('int', s[1], width) if lo_ >= 0 and hi_ < (1 << (8 * width)) else s
+        val = ZERO; got = 0
+        for _, t in lst[k:]:
+            if got >= width: break
+            if t[0] != 'int' or got + t[2] > width: return s
+            lo_, hi_ = rng(t[1])
+            if lo_ < 0 or hi_ >= (1 << (8 * t[2])): return s
+            val = add(val, scale(t[1], 1 << (8 * got))); got += t[2]
+        return ('int', val, width) if got == width else s
     return None
 
 def run(ctx, rep):
@@ -86,7 +100,7 @@ def run(ctx, rep):
         tp = tagged_positions(exp, tags)
         has_len = False
         for pos, es, tag in tp:
-            g = seg_at_term(segs, pos)
+            g = seg_at_term(segs, pos, es[2] if es[0] == 'int' else None)
             if tag == 'type':
                 ok = g is not None and g[0] == 'int' and g[2] == es[2] and equal(g[1], es[1], facts)[0]
                 rep.ob('type-code', subj, ok, 'type code at offset %s is %s, specified %s' % (show(pos), show_segs([g]) if g else None, show_segs([es])), sp=sp_,
@@ -121,7 +135,7 @@ def run(ctx, rep):
         if I.tops or segs is None:
             # receivers that are only serialisable in particular states (CFMWS) are covered by the constructor view above
             continue
-        g = seg_at_term(segs, pos)
+        g = seg_at_term(segs, pos, es[2] if es[0] == 'int' else None)
         if g is None or g[0] != 'int': continue
         val = strip_trunc(g[1])
         if ty in ('srat::RintcAffinity', 'cedt::PortAssociation'): continue     # reported through the constructor view (known findings, one key each)
@@ -161,7 +175,7 @@ def run(ctx, rep):
         for pos, es, tag in tp:
             if tag == 'count:' + tagname:
                 n_counts += 1
-                g = seg_at_term(segs, pos)
+                g = seg_at_term(segs, pos, es[2] if es[0] == 'int' else None)
                 cnt = rep_count(segs, path)
                 subj = '%s.%s' % (ty, tagname)
                 if g is None or g[0] != 'int' or g[2] != es[2]:
@@ -173,7 +187,7 @@ def run(ctx, rep):
                     ok = equal(val, cnt, facts)[0]
                     rep.ob('count', subj, ok, 'count field holds %s but %s elements are emitted' % (show(val), show(cnt)), sp=sp_, detail={'count_field': show(val), 'elements': show(cnt)})
             elif tag == 'offset:' + tagname:
-                g = seg_at_term(segs, pos)
+                g = seg_at_term(segs, pos, es[2] if es[0] == 'int' else None)
                 ro = rep_offset(segs, path)
                 subj = '%s.%s offset' % (ty, tagname)
                 if ro is None and ty in SPEC.TABLES: ro = rep_offset(segs, SPEC.ENTRY_VECTORS.get(ty, path))
